@@ -434,8 +434,33 @@ def _new_state(sts):
     return max(s for s in sts if isinstance(s, int)) + 7 if any(isinstance(s, int) for s in sts) else "other_state"
 
 
+def _mixed_label_lookup():
+    """labels 1 and "1" in one model are different variables: lookups by label must not confuse them"""
+    from pgmpy.factors.discrete import TabularCPD
+    from pgmpy.models import BayesianNetwork
+
+    m = BayesianNetwork([(1, "1")])
+    c_int = TabularCPD(1, 2, [[0.25], [0.75]])
+    c_str = TabularCPD("1", 3, [[0.5, 0.25], [0.25, 0.25], [0.25, 0.5]], evidence=[1], evidence_card=[2])
+    m.add_cpds(c_int)
+    try:
+        m.check_model()
+        return {"key": "check_model:mixed-labels:missing-cpd-accepted", "what": "model with nodes 1 and '1' and a CPD for 1 only was accepted"}
+    except ValueError:
+        pass
+    m.add_cpds(c_str)
+    if m.get_cpds(1) is not c_int or m.get_cpds("1") is not c_str:
+        return {"key": "get_cpds:mixed-labels", "what": f"get_cpds(1) -> {m.get_cpds(1).variable!r}, get_cpds('1') -> {m.get_cpds('1').variable!r}"}
+    if m.get_cardinality(1) != 2 or m.get_cardinality("1") != 3 or m.check_model() is not True:
+        return {"key": "get_cpds:mixed-labels", "what": "cardinalities / validation confused by labels 1 and '1'"}
+    return None
+
+
 def check_models(case):
     A._quiet()
+    f = _mixed_label_lookup()
+    if f:
+        return f
     spec = O.spec_from_json(case)
     nodes, edges, states = spec["nodes"], spec["edges"], spec["states"]
     n = len(nodes)
